@@ -21,6 +21,7 @@ ASSUMPTIONS = ['the head-rule tables of trees/transformconst.py are read as '
                'marking (exactly one listed child); no priority semantics '
                'is assumed']
 WATCHDOG = {'quick': 600, 'thorough': 3600}
+PIPELINE_CASES = {'quick': 500, 'thorough': 20000}   # vt/pipeline.py
 MIN = {'quick': {'distinct': 1500,
                  'hooks': {'transform.negra_mark_heads': 1500,
                            'transform.mark_heads_by_rules': 3000},
